@@ -89,7 +89,14 @@ func genEdits(r *vh.Rng, v []byte, id byte, all bool) []edit {
 		}
 		es = append(es, edit{"ab-restlen exact-1", setAt(v, in+4, le64(uint64(len(v)-in-4-1)))})
 		es = append(es, edit{"ab-restlen exact+1", setAt(v, in+4, le64(uint64(len(v)-in-4+1)))})
-		for _, k := range []uint16{0, 1, 43, 44, 45, 75, 77, 200, 0x7fff, 0xffff} {
+		kl := []uint16{0, 1, 43, 44, 45, 75, 77, 200, 0x7fff, 0xffff}
+		// key lengths around what is left of the block after the header / of the whole block
+		for d := -20; d <= 2; d++ {
+			if v := len(v) - in + d; v >= 0 && v <= 0xffff {
+				kl = append(kl, uint16(v))
+			}
+		}
+		for _, k := range kl {
 			kb := make([]byte, 2)
 			binary.LittleEndian.PutUint16(kb, k)
 			es = append(es, edit{fmt.Sprintf("ab-keylen %d", k), setAt(v, in+16, kb)})
